@@ -402,9 +402,13 @@ func runWS(c *wsCase) string {
 			cb = append(cb, strconv.Itoa(b2i(i < len(closedOK) && closedOK[i])))
 		}
 		obs := fmt.Sprintf("res=%s sinks=%s x_acc=%s x_closed=%s", strings.Join(res, "|"), strings.Join(sb, ","), strings.Join(ab, ","), strings.Join(cb, ","))
-		if c.fault > 0 && strings.Contains(c.ops[0], "conc=") && !strings.Contains(c.ops[0], "conc=1") {
+		conc := strings.Contains(c.ops[0], "conc=") && !strings.Contains(c.ops[0], "conc=1,") && !strings.HasSuffix(c.ops[0], "conc=1")
+		if conc && c.fault > 0 {
 			// with concurrency a sink failure surfaces at a later call: only the oracles apply
 			obs = "x_" + strings.Replace(obs, " sinks=", " x_sinks=", 1)
+		} else if conc && c.ops[len(c.ops)-1] != "C" && c.ops[len(c.ops)-1] != "R" {
+			// blocks still in flight: the sink is only defined once Close has returned
+			obs = strings.Replace(obs, " sinks=", " x_sinks=", 1)
 		}
 		// oracles on the implementation's own behaviour
 		// C15: an injected sink failure must be reported by some operation, at the latest by Close
@@ -546,7 +550,13 @@ func runRS(c *rsCase) string {
 			}
 		}
 		obs := fmt.Sprintf("res=%s consumed=%d final=%s out=%s", strings.Join(res, "|"), src.consumed, final, hx(delivered))
-		if c.conc != 1 {
+		concurrent := c.conc != 1
+		for _, op := range c.ops {
+			if strings.HasPrefix(op, "A:") && strings.Contains(op, "conc=") && !strings.Contains(op, "conc=1") {
+				concurrent = true
+			}
+		}
+		if concurrent {
 			// the concurrent Reader reads ahead and may report a different one of several errors:
 			// only the delivered bytes and whether the stream ended cleanly are compared with the model
 			fc := "err"
